@@ -20,14 +20,15 @@ structure Synced (st : St) : Prop where
 
 /-- `mono`: data page ids are monotone from the acknowledged sequence on. `base`: the item of
 the last sequence points at or below the cursor's page and inside a page (after a reset it
-may be stale or all zero). `sync`: as soon as something is readable the cursor is the end of
-the last item (only right after `SetAppendedSeq` it is not). -/
+may be stale or all zero). `lastTop`: every readable item ends at or below the end of the last
+sequence's item (the position NewQueue restores the cursor to). -/
 structure Quiesc (st : St) : Prop where
   mono : ∀ n n' : Nat, st.q.acked ≤ (n : Int) → n ≤ n' → (n' : Int) ≤ st.q.appended →
     (entry st.mem n).pg ≤ (entry st.mem n').pg
   base : ∀ n : Nat, (n : Int) = st.q.appended →
     (entry st.mem n).pg ≤ st.q.dataPageIndex ∧ (entry st.mem n).off + (entry st.mem n).len ≤ dataPageSize
-  sync : st.q.acked < st.q.appended → Synced st
+  lastTop : ∀ n l : Nat, Readable st.q n → (l : Int) = st.q.appended →
+    TopOf (entry st.mem l) (entry st.mem n)
 
 structure Inv (st : St) : Prop where
   core : InvC st.mem st.q idle
@@ -78,7 +79,7 @@ theorem init_inv : Inv St.init := by
   · refine ⟨?_, ?_, ?_⟩ <;> simp only [h6]
     · intros; omega
     · intros; omega
-    · intro h; omega
+    · intro n l hn; unfold Readable at hn; dsimp only at hn; omega
 
 
 /-! ### Put run to completion -/
@@ -132,7 +133,7 @@ theorem put_inv {st : St} (I : Inv st) (m : Msg) (hl : m.len ≤ dataPageSize) :
   refine ⟨⟨I3, ?_⟩, rfl, by simp [publish], by simp [publish], ?_, c3n⟩
   · obtain ⟨hpg, hmo⟩ := alloc_end st.mem st.q m.len
     have hcb := alloc_cursor st.mem st.q m.len I.core.curBound hl
-    refine ⟨?_, ?_, fun _ => ⟨?_, ?_, ?_⟩⟩
+    refine ⟨?_, ?_, ?_⟩
     · intro n n' h1 h2 h3
       simp only [publish, alloc_appended, alloc_acked] at h1 h3
       by_cases e' : n' = nextSeq st.q
@@ -158,14 +159,18 @@ theorem put_inv {st : St} (I : Inv st) (m : Msg) (hl : m.len ≤ dataPageSize) :
       rw [e3]
       dsimp only
       omega
-    · intro h; simp [publish] at h; omega
-    · intro n hn
-      simp only [publish, alloc_appended] at hn
-      have : n = nextSeq st.q := by omega
+    · intro n l hn hl'
+      simp only [publish, alloc_appended] at hl'
+      have : l = nextSeq st.q := by omega
       subst this
-      dsimp only [publish]
-      rw [e3]; exact ⟨hpg, hmo⟩
-    · simp only [publish, alloc_appended, alloc_nextSeq]; rfl
+      dsimp only
+      rw [e3]
+      by_cases e : n = nextSeq st.q
+      · subst e; rw [e3]; unfold TopOf; omega
+      · rw [hent n e]
+        have hr : Readable st.q n := by
+          unfold Readable publish at *; simp only [alloc_appended, alloc_acked] at hn; omega
+        exact alloc_above _ _ _ (I.core.ent n hr).1.1
   · intro n hn
     dsimp only
     rw [c3 n (hR1 n hn), c2 n (hR1 n hn)]
@@ -216,14 +221,12 @@ theorem frame_inv {st : St} (I : Inv st) (mem' : Mem) (db ib : Nat)
       dsimp only
       rw [hent n (by have := C.ackHi; omega) (by omega)]
       exact I.qs.base n hn'
-    · intro hlt
-      have S := I.qs.sync hlt
-      refine ⟨S.cur0, ?_, S.ipi⟩
-      intro n hn
-      have hn' : (n : Int) = st.q.appended := hn
+    · intro n l hn hl'
+      have hn' : Readable st.q n := hn
+      have hl'' : (l : Int) = st.q.appended := hl'
       dsimp only
-      rw [hent n (by have := C.ackHi; omega) (by omega)]
-      exact S.cur n hn'
+      rw [hent n (by unfold Readable at hn'; omega) hn'.2, hent l (by have := C.ackHi; omega) (by omega)]
+      exact I.qs.lastTop n l hn' hl''
 
 /-! ### reopen -/
 
@@ -255,7 +258,7 @@ theorem reopen_inv {st : St} (I : Inv st) :
     · refine ⟨?_, ?_, ?_⟩ <;> dsimp only
       · intro n n' h1 h2 h3; omega
       · intro n hn; omega
-      · intro hlt; omega
+      · intro n l hn; unfold Readable at hn; dsimp only at hn; omega
     · intro n hn _; unfold Readable at hn; omega
   · rename_i h
     have hn0 : ((st.q.appended.toNat : Nat) : Int) = st.q.appended := by omega
@@ -278,15 +281,14 @@ theorem reopen_inv {st : St} (I : Inv st) :
         split <;> simp [acquireIndex_live]
       · intro n hn
         have hn' : Readable st.q n := hn
-        have S := I.qs.sync (by unfold Readable at hn'; omega)
-        obtain ⟨c1, c2⟩ := S.cur st.q.appended.toNat hn0
+        have ht := I.qs.lastTop n st.q.appended.toNat hn' hn0
         obtain ⟨⟨g1, g2, g3⟩, g4⟩ := C.ent n hn'
         simp only [entry_acquireData, entry_acquireIndex]
         refine ⟨⟨?_, g2, ?_⟩, ?_⟩
-        · unfold Below at *; dsimp only; omega
+        · unfold Below TopOf at *; dsimp only; omega
         · rw [acquireData_live]; right; simpa using g3
         · simp only [acquireData_indexLive, acquireIndex_live]; right; exact g4
-    · refine ⟨?_, ?_, fun _ => ⟨?_, ?_, ?_⟩⟩ <;> dsimp only
+    · refine ⟨?_, ?_, ?_⟩ <;> dsimp only
       · intro n n' h1 h2 h3
         simp only [entry_acquireData, entry_acquireIndex]
         exact I.qs.mono n n' h1 h2 h3
@@ -295,11 +297,9 @@ theorem reopen_inv {st : St} (I : Inv st) :
         subst this
         simp only [entry_acquireData, entry_acquireIndex]
         exact ⟨Nat.le_refl _, b2⟩
-      · intro h'; exact absurd h' h
-      · intro n hn
-        have : n = st.q.appended.toNat := by omega
-        subst this
-        simp
+      · intro n l hn hl'
+        simp only [entry_acquireData, entry_acquireIndex]
+        exact I.qs.lastTop n l hn hl'
     · intro n hn _
       dsimp only
       unfold content
@@ -475,6 +475,47 @@ theorem putF_eq (st : St) (m : Msg) :
     · simp [h1, h2]
     · simp [h1, h2]
 
+/-- a Put whose index-page switch fails: nothing readable changes, nothing is published, the
+cursor has moved past the abandoned space -/
+theorem putFI_inv {st : St} (I : Inv st) (m : Msg) : Inv (putFI st m).1 ∧ Pres st (putFI st m).1 := by
+  unfold putFI
+  split
+  · exact ⟨I, Pres.refl _⟩
+  · rename_i hl
+    have hl : m.len ≤ dataPageSize := by omega
+    dsimp only
+    split
+    · have I1 := alloc_inv I.core 0 m rfl hl
+      obtain ⟨I2, c2⟩ := write_inv I1 0 m _ _ (setTh_same _ _ _)
+      have hge : st.q.dataPageIndex ≤ (alloc st.mem st.q m.len).q.dataPageIndex := by
+        rw [(alloc_end st.mem st.q m.len).1]; exact alloc_pg_ge _ _ _
+      have hR : ∀ n, Readable (alloc st.mem st.q m.len).q n ↔ Readable st.q n := by
+        intro n; simp [Readable]
+      refine ⟨⟨?_, ?_⟩, ?_⟩
+      · exact mkInvC_idle I2.ackLo I2.ackHi I2.metaApp I2.metaAck I2.hasMeta I2.curBound I2.curLive
+          I2.idxLive I2.ent
+      · refine ⟨?_, ?_, ?_⟩ <;> dsimp only
+        · intro n n' h1 h2 h3
+          simp only [alloc_appended, alloc_acked] at h1 h3
+          rw [entry_writeData, entry_writeData, alloc_entry, alloc_entry]
+          exact I.qs.mono n n' h1 h2 h3
+        · intro n hn
+          simp only [alloc_appended] at hn
+          rw [entry_writeData, alloc_entry]
+          have := I.qs.base n hn
+          omega
+        · intro n l hn hl'
+          simp only [alloc_appended] at hl'
+          rw [entry_writeData, entry_writeData, alloc_entry, alloc_entry]
+          exact I.qs.lastTop n l ((hR n).1 hn) hl'
+      · refine ⟨by dsimp only; simp, by dsimp only; simp, ?_⟩
+        intro n hn _
+        dsimp only
+        rw [c2 n ((hR n).2 hn)]
+        unfold content; rw [alloc_entry]
+        apply readBytes_congr; intro i _; simp
+    · exact step_inv_put I m
+
 /-- operations other than the explicit reset -/
 def Op.noReset : Op → Prop
   | .setAppended _ => False
@@ -491,6 +532,7 @@ theorem step_inv {st : St} (I : Inv st) (op : Op) (hnr : op.noReset) :
     · exact ⟨I, Pres.refl _⟩
     · exact step_inv_put I m
   | setAppended s => exact absurd hnr (by simp [Op.noReset])
+  | putFailIdx m => exact putFI_inv I m
   | get s => exact ⟨I, Pres.refl _⟩
   | ack s =>
     show Inv (ack st s) ∧ Pres st (ack st s)
@@ -506,12 +548,9 @@ theorem step_inv {st : St} (I : Inv st) (op : Op) (hnr : op.noReset) :
     refine ⟨?_, ?_, ?_⟩
     · intro n n' h1 h2 h3; rw [q6, q6]; exact I.qs.mono n n' (by omega) h2 (by omega)
     · intro n hn; rw [q2, q6]; exact I.qs.base n (by omega)
-    · intro hlt
-      have S := I.qs.sync (by omega)
-      refine ⟨?_, ?_, ?_⟩
-      · rw [q1, q2, q3]; exact S.cur0
-      · intro n hn; rw [q2, q3, q6]; exact S.cur n (by omega)
-      · rw [q4, q1]; exact S.ipi
+    · intro n l hn hl'
+      rw [q6, q6]
+      exact I.qs.lastTop n l (by unfold Readable at *; omega) (by omega)
   | gc => exact gc_inv I
   | reopen =>
     obtain ⟨I', p, _⟩ := reopen_inv I
@@ -561,7 +600,7 @@ theorem setAppended_inv {st : St} (I : Inv st) (s : Int) (h : ResetOK st s) :
       have : n = n' := by omega
       subst this; exact Nat.le_refl _
     · intro n hn; simp only [entry_setMeta]; exact h2 n hn
-    · intro hlt; omega
+    · intro n l hn; unfold Readable at hn; dsimp only at hn; omega
 
 /-- which operations are covered: everything, resets only when `ResetOK` -/
 def OpOK (st : St) : Op → Prop
@@ -582,6 +621,7 @@ theorem step_inv_ok {st : St} (I : Inv st) (op : Op) (h : OpOK st op) : Inv (ste
   | setAppended s => exact (setAppended_inv I s h).1
   | put m => exact (step_inv I (.put m) trivial).1
   | putFail m => exact (step_inv I (.putFail m) trivial).1
+  | putFailIdx m => exact (step_inv I (.putFailIdx m) trivial).1
   | get s => exact (step_inv I (.get s) trivial).1
   | ack s => exact (step_inv I (.ack s) trivial).1
   | gc => exact (step_inv I .gc trivial).1
@@ -618,10 +658,172 @@ theorem run_content {st : St} (I : Inv st) (ops : List Op) (n : Nat) (h : OpsOK 
       unfold Readable at hr1'; omega
     | put m => exact (step_inv I (.put m) trivial).2.2.2 n hr hr1
     | putFail m => exact (step_inv I (.putFail m) trivial).2.2.2 n hr hr1
+    | putFailIdx m => exact (step_inv I (.putFailIdx m) trivial).2.2.2 n hr hr1
     | get s => exact (step_inv I (.get s) trivial).2.2.2 n hr hr1
     | ack s => exact (step_inv I (.ack s) trivial).2.2.2 n hr hr1
     | gc => exact (step_inv I .gc trivial).2.2.2 n hr hr1
     | reopen => exact (step_inv I .reopen trivial).2.2.2 n hr hr1
     | crashPut m k => exact (step_inv I (.crashPut m k) trivial).2.2.2 n hr hr1
+
+/-! ### the cursor NewQueue computes; histories along which the volatile cursor equals it -/
+
+theorem openQ_entry {st : St} (I : Inv st) (n : Nat) : entry (openQ st.mem).mem n = entry st.mem n := by
+  unfold openQ
+  rw [if_pos I.core.hasMeta]
+  unfold initDataPageIndex
+  split <;> simp
+
+/-- NewQueue recomputes the write cursor from the LAST sequence's index item — (page, offset +
+length) — whether or not that sequence is acknowledged; only an empty queue starts at (0,0). -/
+theorem reopen_cursor {st : St} (I : Inv st) : Synced (openQ st.mem) := by
+  have C := I.core
+  have hap : -1 ≤ st.q.appended := Int.le_trans C.ackLo C.ackHi
+  have hq : (openQ st.mem).q.appended = st.q.appended := (reopen_inv I).2.2.1
+  refine ⟨?_, ?_, ?_⟩
+  · intro h
+    rw [hq] at h
+    unfold openQ
+    rw [if_pos C.hasMeta, C.metaApp, C.metaAck]
+    unfold initDataPageIndex
+    rw [if_pos h]
+    exact ⟨rfl, rfl⟩
+  · intro n hn
+    rw [hq] at hn
+    rw [openQ_entry I]
+    have hn0 : n = st.q.appended.toNat := by omega
+    subst hn0
+    obtain ⟨_, b2⟩ := I.qs.base st.q.appended.toNat hn
+    unfold openQ
+    rw [if_pos C.hasMeta, C.metaApp, C.metaAck]
+    unfold initDataPageIndex
+    rw [if_neg (by omega)]
+    simp only [entry_acquireIndex]
+    exact ⟨trivial, Nat.mod_eq_of_lt (by qomega)⟩
+  · rw [hq]
+    unfold openQ
+    rw [if_pos C.hasMeta, C.metaApp, C.metaAck]
+    unfold initDataPageIndex
+    split
+    · rename_i h; rw [h]; rfl
+    · rfl
+
+theorem put_synced {st : St} (I : Inv st) (m : Msg) (hl : m.len ≤ dataPageSize) : Synced (put st m).1 := by
+  obtain ⟨_, _, r3, _⟩ := put_inv I m hl
+  have hap : -1 ≤ st.q.appended := Int.le_trans I.core.ackLo I.core.ackHi
+  have hns := nextSeq_cast hap
+  rw [put_eq st m hl] at r3 ⊢
+  have I1 := alloc_inv I.core 0 m rfl hl
+  obtain ⟨I2, _⟩ := write_inv I1 0 m _ _ (setTh_same _ _ _)
+  obtain ⟨_, _, _, e3⟩ := persist_inv I2 0 m _ _ (setTh_same _ _ _)
+  simp only [alloc_nextSeq] at e3
+  obtain ⟨hpg, hmo⟩ := alloc_end st.mem st.q m.len
+  refine ⟨?_, ?_, ?_⟩
+  · intro h; simp [publish] at h; omega
+  · intro n hn
+    simp only [publish, alloc_appended] at hn
+    have : n = nextSeq st.q := by omega
+    subst this
+    dsimp only [publish]
+    rw [e3]; exact ⟨hpg, hmo⟩
+  · simp only [publish, alloc_appended, alloc_nextSeq]; rfl
+
+theorem gc_q (st : St) : (gc st).q = st.q := by
+  unfold gc; split
+  · rfl
+  · dsimp only; split <;> rfl
+
+theorem gc_entry {st : St} (I : Inv st) (n : Nat) (hn : st.q.acked ≤ (n : Int)) :
+    entry (gc st).mem n = entry st.mem n := by
+  unfold gc
+  split
+  · rfl
+  · dsimp only
+    split
+    · rfl
+    · have : ¬ (n / indexItemsPerPage < st.q.acked.toNat / indexItemsPerPage) := by qomega
+      simp only [entry, truncateIndex, truncateData, if_neg this]
+
+/-- operations after which the volatile cursor still is what NewQueue would compute: all but
+the explicit reset and a Put whose index-page switch failed -/
+def Op.plain : Op → Prop
+  | .setAppended _ | .putFailIdx _ => False
+  | _ => True
+
+theorem Op.plain_noReset {op : Op} (h : op.plain) : op.noReset := by
+  cases op <;> simp_all [Op.plain, Op.noReset]
+
+theorem step_synced {st : St} (I : Inv st) (S : Synced st) (op : Op) (hp : op.plain) :
+    Synced (step st op) := by
+  have hput : ∀ m, Synced (put st m).1 := by
+    intro m
+    by_cases hl : m.len ≤ dataPageSize
+    · exact put_synced I m hl
+    · have : (put st m).1 = st := by unfold put; rw [if_pos (by omega)]
+      rw [this]; exact S
+  cases op with
+  | setAppended s => exact absurd hp (by simp [Op.plain])
+  | putFailIdx m => exact absurd hp (by simp [Op.plain])
+  | put m => exact hput m
+  | putFail m =>
+    show Synced (putF st m).1
+    rw [putF_eq]; split
+    · exact S
+    · exact hput m
+  | get s => exact S
+  | ack s =>
+    show Synced (ack st s)
+    have hq : (ack st s).q.appended = st.q.appended ∧ (ack st s).q.dataPageIndex = st.q.dataPageIndex ∧
+        (ack st s).q.messageOffset = st.q.messageOffset ∧ (ack st s).q.indexPageIndex = st.q.indexPageIndex ∧
+        (∀ n, entry (ack st s).mem n = entry st.mem n) := by
+      unfold ack; split
+      · exact ⟨rfl, rfl, rfl, rfl, fun n => rfl⟩
+      · exact ⟨rfl, rfl, rfl, rfl, fun n => rfl⟩
+    obtain ⟨q1, q2, q3, q4, q6⟩ := hq
+    refine ⟨?_, ?_, ?_⟩
+    · rw [q1, q2, q3]; exact S.cur0
+    · intro n hn; rw [q2, q3, q6]; exact S.cur n (by omega)
+    · rw [q4, q1]; exact S.ipi
+  | gc =>
+    show Synced (gc st)
+    have hq := gc_q st
+    refine ⟨?_, ?_, ?_⟩
+    · rw [hq]; exact S.cur0
+    · intro n hn
+      rw [hq] at hn ⊢
+      rw [gc_entry I n (by have := I.core.ackHi; omega)]
+      exact S.cur n hn
+    · rw [hq]; exact S.ipi
+  | reopen => exact reopen_cursor I
+  | crashPut m k =>
+    show Synced (crashPut st m k)
+    unfold crashPut
+    split
+    · exact reopen_cursor I
+    · rename_i hl
+      have hl : m.len ≤ dataPageSize := by omega
+      by_cases hk : k < m.len + 4
+      · exact reopen_cursor (putStores_frame I m k hk).1
+      · have he : putStores (alloc st.mem st.q m.len) m k = (put st m).1.mem := by
+          rw [put_eq st m hl]
+          unfold putStores
+          rw [if_neg (by omega), persistStores_ge4 _ _ _ _ _ _ (by omega)]
+        rw [he]
+        exact reopen_cursor (put_inv I m hl).1
+
+theorem init_synced : Synced St.init := by
+  have h6 : St.init.q = ⟨-1, -1, 0, 0, 0⟩ := by
+    simp [St.init, openQ, Mem.empty, initDataPageIndex]
+  refine ⟨?_, ?_, ?_⟩ <;> simp only [h6]
+  · simp
+  · intro n hn; omega
+  · rfl
+
+theorem run_synced {st : St} (I : Inv st) (S : Synced st) (ops : List Op) (hp : ∀ op ∈ ops, op.plain) :
+    Synced (run st ops) := by
+  induction ops generalizing st with
+  | nil => exact S
+  | cons op ops ih =>
+    have h1 := hp op (by simp)
+    exact ih (step_inv I op (Op.plain_noReset h1)).1 (step_synced I S op h1) (fun o ho => hp o (by simp [ho]))
 
 end LinVerif.Queue
